@@ -1,4 +1,5 @@
 import N0Verif.Proofs.XPathSelect2
+import N0Verif.Proofs.XPathSelect3
 /-!
 # C06 — wildcard and predicate steps select exactly the matching elements, in order
 
@@ -17,7 +18,11 @@ returns to, a predicate on an empty list is a miss).
 What is proved: `C06_star`, `C06_pred` (= `C06_star_stmt`, `C06_pred_stmt`: the record list at ANY position of
 the tree, canonical path `P`), the `…_partial` theorems for `P` = a plain key of the root written without the
 leading `/`, `C06_star_spelled` (any spelling of `P`), and chained selections `C06_chained`
-(= `C06_chained_stmt`: the nested list of per-parent selections).  No statement is left open.
+(= `C06_chained_stmt`: the nested list of per-parent selections).  For EVERY spelling of `P` (prefix none / `/` /
+`//`, `][` or `]/[`, `a[i]` or `a/[i]`, an index as `i`, `-k`, `last()`, `last()-k`, `i+j`): `C06_pred_spelled`,
+`C06_chained_spelled` (token level) and `C06_pred_spellings_string`, `C06_chained_spellings_string` (string level).
+`first` on a chained selection: `C06_chained_first`, `C06_chained_first_cases`.  An inner `items` that is ONE dict
+record instead of a list of records: `C06_chained_hidden`, `C06_chained_hidden_flat`.  No statement is left open.
 -/
 namespace N0.C06
 open N0 N0.Py N0.Val N0.XPath
@@ -495,6 +500,349 @@ theorem C06_text_form_equiv_partial (cls : Cls) (kvs : List (Str × Val)) (name 
   have hT := h xpT (by simp [xpT])
   have hP := h xpP (by simp [xpP])
   exact ⟨hT.1.trans hP.1.symm, hT.2.1.trans hP.2.1.symm, hT.2.2.trans hP.2.2.symm⟩
+
+
+/-! ## every spelling of `P`; `first` on chained selections; an inner `items` that is one record -/
+
+/-- `return_lists=False`: a single selected value stands for itself, anything else is the list -/
+def single (vals : List Val) : Val :=
+  match vals with
+  | [x] => x
+  | xs => .list .n0 xs
+
+theorem collect_true (vals : List Val) : collect true vals = .list .n0 vals := rfl
+
+theorem collect_false (vals : List Val) : collect false vals = single vals := by
+  match vals with
+  | [] => rfl
+  | [x] => rfl
+  | x :: y :: r => simp [collect, single]
+
+/-- what one outer record's `items` value contributes to `…/items[k2 op v2]/f`: a LIST of records contributes the
+list of its selected values (under `return_lists=False`, i.e. `first`: `single` of it), nothing when that is
+empty; ONE dict record (the library's "hidden list") contributes its own `f`, un-listed, when it passes the
+test; anything else nothing -/
+def innerSelG (rl : Bool) (k2 f : Str) (test2 : Val → Bool) : Val → Option Val
+  | .list _ xs =>
+    if (selectWhere k2 f test2 xs).isEmpty then Option.none
+    else some (if rl then .list .n0 (selectWhere k2 f test2 xs) else single (selectWhere k2 f test2 xs))
+  | .dict c kvs => (selectWhere k2 f test2 [.dict c kvs]).head?
+  | _ => Option.none
+
+/-- the per-parent contributions of a chained selection, in order (`rl` = `return_lists`) -/
+def selectChainedG (rl : Bool) (k1 items : Str) (test1 : Val → Bool) (k2 f : Str) (test2 : Val → Bool) (rs : List Val) : List Val :=
+  (selectWhere k1 items test1 rs).filterMap (innerSelG rl k2 f test2)
+
+/-- `items`, where an outer record has it, is a list of dict records or one dict record -/
+def InnerRecs (items k2 v2 : Str) (rs : List Val) : Prop :=
+  ∀ c kvs' x, Val.dict c kvs' ∈ rs → lookup items kvs' = some x →
+    (∃ lc xs, x = .list lc xs ∧ (∀ y ∈ xs, isDict y = true) ∧ ComparableK k2 v2 xs) ∨
+    (∃ c2 kvs2, x = .dict c2 kvs2 ∧ ComparableK k2 v2 [x])
+
+theorem InnerLists.recs {items k2 v2 : Str} {rs : List Val} (h : InnerLists items k2 v2 rs) : InnerRecs items k2 v2 rs :=
+  fun c kvs' x hm hl => Or.inl (h c kvs' x hm hl)
+
+theorem InnerRecs.ok {items k2 v2 : Str} {rs : List Val} (h : InnerRecs items k2 v2 rs) : Sel3InnerOK items k2 (.str v2) rs := by
+  intro c kvs' x hm hl
+  rcases h c kvs' x hm hl with ⟨lc, xs, rfl, hds, hcmp⟩ | ⟨c2, kvs2, rfl, hcmp⟩
+  · exact Or.inl ⟨lc, xs, rfl, hds, hcmp.guard⟩
+  · exact Or.inr ⟨c2, kvs2, rfl, fun kv hkv => hcmp.guard c2 kvs2 kv (by simp) hkv⟩
+
+theorem chainedG_head (rl : Bool) (k1 op1 : Str) (v1 : CondVal) (items k2 f op2 : Str) (v2 : CondVal) (r : Val) :
+    (selectWhere k1 items (condTest op1 v1) [r]).filterMap (innerSelG rl k2 f (condTest op2 v2))
+      = (sel2Gate k1 op1 v1 r (sel3Inner items k2 f op2 v2 rl r)).toList := by
+  cases r with
+  | dict c kvs =>
+    cases hk : lookup k1 kvs with
+    | none => simp [sel2Gate, selectWhere, hk]
+    | some kv =>
+      cases ht : condTest op1 v1 kv with
+      | false => cases hi : lookup items kvs <;> simp [sel2Gate, selectWhere, hk, ht, hi]
+      | true =>
+        cases hi : lookup items kvs with
+        | none => simp [sel2Gate, sel3Inner, selectWhere, hk, ht, hi]
+        | some x =>
+          cases x with
+          | list lc xs =>
+            have hsel := selectWhere_eq k2 f op2 v2 xs
+            cases he : (selectWhere k2 f (condTest op2 v2) xs).isEmpty <;> cases rl <;>
+              simp [sel2Gate, sel3Inner, selectWhere, hk, ht, hi, innerSelG, hsel, he, collect_true, collect_false]
+          | dict c2 kvs2 =>
+            cases hk2 : lookup k2 kvs2 with
+            | none => simp [sel2Gate, sel3Inner, selectWhere, hk, ht, hi, innerSelG, condOutcome, hk2]
+            | some kv2 =>
+              cases ht2 : condTest op2 v2 kv2 <;> cases hf : lookup f kvs2 <;>
+                simp [sel2Gate, sel3Inner, selectWhere, hk, ht, hi, innerSelG, condOutcome, hk2, ht2, hf]
+          | _ => simp [sel2Gate, sel3Inner, selectWhere, hk, ht, hi, innerSelG]
+  | _ => simp [sel2Gate, selectWhere]
+
+theorem chainedG_eq (rl : Bool) (k1 op1 : Str) (v1 : CondVal) (items k2 f op2 : Str) (v2 : CondVal) (rs : List Val) :
+    sel3Chained k1 op1 v1 items k2 f op2 v2 rl rs
+      = selectChainedG rl k1 items (condTest op1 v1) k2 f (condTest op2 v2) rs := by
+  unfold sel3Chained sel2Sel selectChainedG
+  induction rs with
+  | nil => rfl
+  | cons r rs ih =>
+    rw [List.map_cons, somes_cons_toList, ih, selectWhere_cons, List.filterMap_append, chainedG_head]
+
+/-- the values `selectWhere` returns for the field `items` are `items` values of records of `rs` -/
+theorem selectWhere_mem (k f : Str) (t : Val → Bool) (rs : List Val) (x : Val) (h : x ∈ selectWhere k f t rs) :
+    ∃ c kvs, Val.dict c kvs ∈ rs ∧ lookup f kvs = some x := by
+  induction rs with
+  | nil => simp [selectWhere] at h
+  | cons r rs ih =>
+    rw [selectWhere_cons, List.mem_append] at h
+    rcases h with h | h
+    · cases r with
+      | dict c kvs =>
+        cases hk : lookup k kvs with
+        | none => simp [selectWhere, hk] at h
+        | some kv =>
+          cases hf : lookup f kvs with
+          | none => simp [selectWhere, hk, hf] at h
+          | some fv =>
+            cases ht : t kv <;> simp [selectWhere, hk, hf, ht] at h
+            subst h
+            exact ⟨c, kvs, by simp, hf⟩
+      | _ => simp [selectWhere] at h
+    · obtain ⟨c, kvs, hm, hl⟩ := ih h
+      exact ⟨c, kvs, List.mem_cons_of_mem _ hm, hl⟩
+
+/-- with inner LISTS only, the `return_lists=True` contributions are the nested lists of `selectChained` -/
+theorem selectChainedG_lists (k1 items : Str) (t1 : Val → Bool) (k2 f v2 : Str) (t2 : Val → Bool) (rs : List Val)
+    (h : InnerLists items k2 v2 rs) : selectChainedG true k1 items t1 k2 f t2 rs = selectChained k1 items t1 k2 f t2 rs := by
+  unfold selectChainedG selectChained
+  apply sel3_filterMap_congr
+  intro x hx
+  obtain ⟨c, kvs, hm, hl⟩ := selectWhere_mem k1 items t1 rs x hx
+  obtain ⟨lc, xs, rfl, _, _⟩ := h c kvs x hm hl
+  simp [innerSelG, innerSel]
+
+/-- **C06 (predicates, any spelling, token level).**  `toksP` is any token list that spells the position of the
+list of dict records (key steps plain names, index steps in any spelling: `Sel3Spells`).  Then `_find` on
+`toksP ++ ["[k op v]", f]`, on `toksP ++ ["k[text() op v]", "..", f]` and — when `toksP` ends in a key token
+`name` — on `… "name[k op v]", f` finds exactly `selectWhere k f (condTest op v) rs` (a miss when empty), for both
+values of `return_lists`; the tree is unchanged.  (The `'..'` step re-resolves the text the walk has written:
+evaluated indexes, so `a[last()]` comes back as `/a[-1]` — `Sel3Norm`, `sel3_up_record`.) -/
+theorem C06_pred_spelled (t : Val) (rl : Bool) (toksP : List Str) (p : Pos) (lc : Cls) (rs : List Val) (k f opx op vq v : Str)
+    (hs : Sel3Spells toksP t p (.list lc rs)) (hk : FieldKey k) (hf : PlainKey f) (hop : OpSpell opx op) (hlit : LitSpell vq v)
+    (hv : PlainLit v) (hrs : ∀ r ∈ rs, isDict r = true) (hg : ComparableK k v rs)
+    (fuel : Nat) (hfuel : fuel ≥ 6 * toksP.length + rs.length + 14) :
+    (∀ tail ∈ [[bracket (k ++ opx ++ vq), f], [k ++ bracket (sTextFn ++ opx ++ vq), ['.', '.'], f]],
+      ∃ r, findD fuel t [] false true (toksP ++ tail) (.at []) rl slash = .ok (t, r) ∧
+        r.isFound = !(selectWhere k f (condTest op (.str v)) rs).isEmpty ∧
+        (r.isFound = true → r.value = collect rl (selectWhere k f (condTest op (.str v)) rs))) ∧
+    (∀ toks' name, toksP = toks' ++ [name] → PlainKey name →
+      ∃ r, findD fuel t [] false true (toks' ++ [name ++ bracket (k ++ opx ++ vq), f]) (.at []) rl slash = .ok (t, r) ∧
+        r.isFound = !(selectWhere k f (condTest op (.str v)) rs).isEmpty ∧
+        (r.isFound = true → r.value = collect rl (selectWhere k f (condTest op (.str v)) rs))) := by
+  have := sel3_pred_spelled t rl k f opx op vq v hs hk hf hop hlit hv hrs hg.guard fuel hfuel
+  simp only [selectWhere_eq] at this
+  exact this
+
+/-- **C06 (predicates, any spelling, string level).**  `steps` is any spelling of a path that plain Python indexing
+follows from the root to the list of dict records `rs` (`stepsGet`); `renderSp lead steps` its text with prefix none,
+`/` or `//`.  Then `P[k op v]/f` and `P/k[text() op v]/../f` return `f` of exactly the records whose `k` passes the
+comparison, through `get`, item access and `first`; the tree is unchanged. -/
+theorem C06_pred_spellings_string (cls : Cls) (kvs : List (Str × Val)) (lead : Lead) (steps : List StepSp)
+    (k f opx op vq v : Str) (lc : Cls) (rs : List Val) (d : Val) (hp : PlainSteps steps) (hne : steps ≠ [])
+    (hget : stepsGet (.dict cls kvs) steps = some (.list lc rs)) (hk : FieldKey k) (hf : PlainKey f) (hop : OpSpell opx op)
+    (hlit : LitSpell vq v) (hv : PlainLit v) (hrs : ∀ r ∈ rs, isDict r = true) (hg : ComparableK k v rs)
+    (fuel : Nat) (hfuel : fuel ≥ 6 * steps.length + rs.length + 14) :
+    ∀ xp ∈ [renderSp lead steps ++ bracket (k ++ opx ++ vq) ++ slash ++ f,
+            renderSp lead steps ++ slash ++ k ++ bracket (sTextFn ++ opx ++ vq) ++ slash ++ ['.', '.'] ++ slash ++ f],
+      XPath.get fuel (.dict cls kvs) xp d
+        = (.dict cls kvs, .ok (selected (selectWhere k f (condTest op (.str v)) rs) d)) ∧
+      getItem fuel (.dict cls kvs) xp = (.dict cls kvs, selectedItem (selectWhere k f (condTest op (.str v)) rs)) ∧
+      first fuel (.dict cls kvs) xp d = (.dict cls kvs, .ok (firstOf (selectWhere k f (condTest op (.str v)) rs) d)) := by
+  intro xp hxp
+  have := sel3_pred_string cls kvs lead steps k f opx op vq v lc rs d hp hne hget hk hf hop hlit hv hrs hg.guard fuel hfuel xp hxp
+  simp only [selectWhere_eq] at this
+  exact this
+
+/-- **C06 (chained selections, any spelling, token level; `items` a list of records or one record).**  `_find` on
+`toksP ++ ["[k1 op v1]", "items[k2 op v2]", f]` (and on the merged `… "name[k1 op v1]", …` when `toksP` ends in a key
+token) finds exactly the per-parent contributions `selectChainedG rl …`, for both values of `return_lists`. -/
+theorem C06_chained_spelled (t : Val) (rl : Bool) (toksP : List Str) (p : Pos) (lc : Cls) (rs : List Val)
+    (k1 opx1 op1 vq1 v1 items k2 opx2 op2 vq2 v2 f : Str)
+    (hs : Sel3Spells toksP t p (.list lc rs)) (hk1 : FieldKey k1) (hop1 : OpSpell opx1 op1) (hlit1 : LitSpell vq1 v1)
+    (hv1 : PlainLit v1) (hitems : PlainKey items) (hk2 : FieldKey k2) (hop2 : OpSpell opx2 op2) (hlit2 : LitSpell vq2 v2)
+    (hv2 : PlainLit v2) (hf : PlainKey f) (hrs : ∀ r ∈ rs, isDict r = true) (hg : ComparableK k1 v1 rs)
+    (hin : InnerRecs items k2 v2 rs)
+    (fuel : Nat) (hfuel : fuel ≥ 10 * toksP.length + rs.length + (rs.map (sel2InnerLen items)).sum + 30) :
+    let vals := selectChainedG rl k1 items (condTest op1 (.str v1)) k2 f (condTest op2 (.str v2)) rs
+    (∃ r, findD fuel t [] false true (toksP ++ [bracket (k1 ++ opx1 ++ vq1), items ++ bracket (k2 ++ opx2 ++ vq2), f]) (.at []) rl slash
+        = .ok (t, r) ∧ r.isFound = !vals.isEmpty ∧ (r.isFound = true → r.value = collect rl vals)) ∧
+    (∀ toks' name, toksP = toks' ++ [name] → PlainKey name →
+      ∃ r, findD fuel t [] false true (toks' ++ [name ++ bracket (k1 ++ opx1 ++ vq1), items ++ bracket (k2 ++ opx2 ++ vq2), f])
+          (.at []) rl slash = .ok (t, r) ∧ r.isFound = !vals.isEmpty ∧ (r.isFound = true → r.value = collect rl vals)) := by
+  intro vals
+  have := sel3_chained_spelled t rl k1 opx1 op1 vq1 v1 items k2 opx2 op2 vq2 v2 f hs hk1 hop1 hlit1 hv1 hitems hk2 hop2 hlit2 hv2
+    hf hrs hg.guard hin.ok fuel hfuel
+  simp only [chainedG_eq] at this
+  exact this
+
+/-- **C06 (chained selections, any spelling, string level; `items` a list of records or one record).**
+`P[k1 op v1]/items[k2 op v2]/f` for any spelling of `P`: `get` and item access return the list of per-parent
+contributions (`selectChainedG true`: the nested list of per-parent selections when every `items` is a list —
+`selectChainedG_lists`), the default / `IndexError` when there is none; `first` returns `firstOf` of the
+`return_lists=False` contributions; the tree is unchanged. -/
+theorem C06_chained_spellings_string (cls : Cls) (kvs : List (Str × Val)) (lead : Lead) (steps : List StepSp)
+    (k1 opx1 op1 vq1 v1 items k2 opx2 op2 vq2 v2 f : Str) (lc : Cls) (rs : List Val) (d : Val)
+    (hp : PlainSteps steps) (hne : steps ≠ []) (hget : stepsGet (.dict cls kvs) steps = some (.list lc rs))
+    (hk1 : FieldKey k1) (hop1 : OpSpell opx1 op1) (hlit1 : LitSpell vq1 v1) (hv1 : PlainLit v1) (hitems : PlainKey items)
+    (hk2 : FieldKey k2) (hop2 : OpSpell opx2 op2) (hlit2 : LitSpell vq2 v2) (hv2 : PlainLit v2) (hf : PlainKey f)
+    (hrs : ∀ r ∈ rs, isDict r = true) (hg : ComparableK k1 v1 rs) (hin : InnerRecs items k2 v2 rs)
+    (fuel : Nat) (hfuel : fuel ≥ 10 * steps.length + rs.length + (rs.map (sel2InnerLen items)).sum + 30) :
+    let xp := renderSp lead steps ++ bracket (k1 ++ opx1 ++ vq1) ++ slash ++ items ++ bracket (k2 ++ opx2 ++ vq2) ++ slash ++ f
+    let valsT := selectChainedG true k1 items (condTest op1 (.str v1)) k2 f (condTest op2 (.str v2)) rs
+    let valsF := selectChainedG false k1 items (condTest op1 (.str v1)) k2 f (condTest op2 (.str v2)) rs
+    XPath.get fuel (.dict cls kvs) xp d = (.dict cls kvs, .ok (selected valsT d)) ∧
+    getItem fuel (.dict cls kvs) xp = (.dict cls kvs, selectedItem valsT) ∧
+    first fuel (.dict cls kvs) xp d = (.dict cls kvs, .ok (firstOf valsF d)) := by
+  intro xp valsT valsF
+  have := sel3_chained_string cls kvs lead steps k1 opx1 op1 vq1 v1 items k2 opx2 op2 vq2 v2 f lc rs d hp hne hget hk1 hop1 hlit1
+    hv1 hitems hk2 hop2 hlit2 hv2 hf hrs hg.guard hin.ok fuel hfuel
+  simp only [chainedG_eq] at this
+  exact this
+
+/-- **C06 (an inner `items` that is one record — the "hidden list").**  For the record list at any position `p`
+(canonical path `P`) whose records carry, under `items`, a list of dict records OR one dict record:
+`P[k1 op v1]/items[k2 op v2]/f` returns the per-parent contributions `selectChainedG` — a parent whose `items` is a
+list contributes the list of its selected values, a parent whose `items` is ONE record contributes that record's
+`f` itself (not a one-element list) when the record passes the inner test.  The matching elements are exactly the
+selected ones; only the nesting of a single-record parent is flat. -/
+theorem C06_chained_hidden (cls : Cls) (kvs : List (Str × Val)) (p : Pos)
+    (k1 opx1 op1 vq1 v1 items k2 opx2 op2 vq2 v2 f : Str) (lc : Cls) (rs : List Val) (d : Val)
+    (hp : PlainPos p) (hne : p ≠ []) (hk1 : FieldKey k1) (hop1 : OpSpell opx1 op1) (hlit1 : LitSpell vq1 v1) (hv1 : PlainLit v1)
+    (hitems : PlainKey items) (hk2 : FieldKey k2) (hop2 : OpSpell opx2 op2) (hlit2 : LitSpell vq2 v2) (hv2 : PlainLit v2)
+    (hf : PlainKey f) (hget : getAt (.dict cls kvs) p = some (.list lc rs)) (hrs : ∀ r ∈ rs, isDict r = true)
+    (hg : ComparableK k1 v1 rs) (hin : InnerRecs items k2 v2 rs) :
+    ∃ n, ∀ fuel ≥ n,
+      let xp := slash ++ renderPos p ++ bracket (k1 ++ opx1 ++ vq1) ++ slash ++ items ++ bracket (k2 ++ opx2 ++ vq2) ++ slash ++ f
+      let valsT := selectChainedG true k1 items (condTest op1 (.str v1)) k2 f (condTest op2 (.str v2)) rs
+      let valsF := selectChainedG false k1 items (condTest op1 (.str v1)) k2 f (condTest op2 (.str v2)) rs
+      XPath.get fuel (.dict cls kvs) xp d = (.dict cls kvs, .ok (selected valsT d)) ∧
+      getItem fuel (.dict cls kvs) xp = (.dict cls kvs, selectedItem valsT) ∧
+      first fuel (.dict cls kvs) xp d = (.dict cls kvs, .ok (firstOf valsF d)) := by
+  refine ⟨10 * p.length + rs.length + (rs.map (sel2InnerLen items)).sum + 30, fun fuel hfuel => ?_⟩
+  have := C06_chained_spellings_string cls kvs .two (sel3StepsOf p) k1 opx1 op1 vq1 v1 items k2 opx2 op2 vq2 v2 f lc rs d
+    (sel3_stepsOf_plain p hp) (by cases p with | nil => exact absurd rfl hne | cons s r => cases s <;> simp [sel3StepsOf])
+    (sel3_stepsOf_get p _ _ hget) hk1 hop1 hlit1 hv1 hitems hk2 hop2 hlit2 hv2 hf hrs hg hin fuel
+    (by rw [sel3_stepsOf_length]; exact hfuel)
+  rw [sel3_stepsOf_canon cls kvs p _ hne hget] at this
+  exact this
+
+/-- when `items` is never a list — every outer record that has it has ONE dict record there — the chained
+selection is flat: `[r[items][f] for r in rs if r passes, has items, r[items] passes and has f]` -/
+theorem C06_chained_hidden_flat (rl : Bool) (k1 items : Str) (t1 : Val → Bool) (k2 f : Str) (t2 : Val → Bool) (rs : List Val)
+    (h : ∀ c kvs' x, Val.dict c kvs' ∈ rs → lookup items kvs' = some x → ∀ lc xs, x ≠ .list lc xs) :
+    selectChainedG rl k1 items t1 k2 f t2 rs = selectWhere k2 f t2 (selectWhere k1 items t1 rs) := by
+  unfold selectChainedG
+  have hall : ∀ x ∈ selectWhere k1 items t1 rs, ∀ lc xs, x ≠ .list lc xs := by
+    intro x hx
+    obtain ⟨c, kvs', hm, hl⟩ := selectWhere_mem k1 items t1 rs x hx
+    exact h c kvs' x hm hl
+  generalize selectWhere k1 items t1 rs = ys at hall
+  induction ys with
+  | nil => rfl
+  | cons y ys ih =>
+    have ih' := ih (fun x hx => hall x (List.mem_cons_of_mem _ hx))
+    rw [selectWhere_cons k2 f t2 y ys, List.filterMap_cons, ← ih']
+    cases y with
+    | list lc xs => exact absurd rfl (hall _ (by simp) lc xs)
+    | dict c kvs2 =>
+      cases hh : (selectWhere k2 f t2 [Val.dict c kvs2]).head? with
+      | none =>
+        have : selectWhere k2 f t2 [Val.dict c kvs2] = [] := by
+          cases hs : selectWhere k2 f t2 [Val.dict c kvs2] with
+          | nil => rfl
+          | cons a b => rw [hs] at hh; simp at hh
+        simp [innerSelG, this]
+      | some z =>
+        have : selectWhere k2 f t2 [Val.dict c kvs2] = [z] := by
+          cases hk : lookup k2 kvs2 with
+          | none => simp [selectWhere, hk] at hh
+          | some kv =>
+            cases hf : lookup f kvs2 with
+            | none => simp [selectWhere, hk, hf] at hh
+            | some fv =>
+              cases ht : t2 kv <;> simp [selectWhere, hk, hf, ht] at hh ⊢
+              exact hh
+        simp [innerSelG, this]
+    | _ => simp [innerSelG, selectWhere]
+
+/-- the per-parent selections of a chained lookup as Lean lists (inner LISTS of records) -/
+def innerList (k2 f : Str) (test2 : Val → Bool) : Val → Option (List Val)
+  | .list _ xs => if (selectWhere k2 f test2 xs).isEmpty then Option.none else some (selectWhere k2 f test2 xs)
+  | _ => Option.none
+
+def chainedLists (k1 items : Str) (test1 : Val → Bool) (k2 f : Str) (test2 : Val → Bool) (rs : List Val) : List (List Val) :=
+  (selectWhere k1 items test1 rs).filterMap (innerList k2 f test2)
+
+theorem chainedLists_true (k1 items : Str) (t1 : Val → Bool) (k2 f : Str) (t2 : Val → Bool) (rs : List Val) :
+    selectChained k1 items t1 k2 f t2 rs = (chainedLists k1 items t1 k2 f t2 rs).map (fun sel => Val.list .n0 sel) := by
+  unfold selectChained chainedLists
+  rw [List.map_filterMap]
+  apply sel3_filterMap_congr
+  intro x _
+  cases x with
+  | list lc xs => cases he : (selectWhere k2 f t2 xs).isEmpty <;> simp [innerSel, innerList, he]
+  | _ => simp [innerSel, innerList]
+
+theorem chainedLists_false (k1 items : Str) (t1 : Val → Bool) (k2 f v2 : Str) (t2 : Val → Bool) (rs : List Val)
+    (h : InnerLists items k2 v2 rs) :
+    selectChainedG false k1 items t1 k2 f t2 rs = (chainedLists k1 items t1 k2 f t2 rs).map single := by
+  unfold selectChainedG chainedLists
+  rw [List.map_filterMap]
+  apply sel3_filterMap_congr
+  intro x hx
+  obtain ⟨c, kvs, hm, hl⟩ := selectWhere_mem k1 items t1 rs x hx
+  obtain ⟨lc, xs, rfl, _, _⟩ := h c kvs x hm hl
+  cases he : (selectWhere k2 f t2 xs).isEmpty <;> simp [innerSelG, innerList, he]
+
+/-- **C06 (`first` on a chained selection).**  With `sels` = the per-parent selections (the non-empty lists
+`[it[f] for it in r[items] if …]` of the outer records that pass, in order — `chainedLists`, whose `.list`-wrapped
+form is what `get` returns: `chainedLists_true`), `first` returns `firstOf (sels.map single) d`: every parent's
+selection is replaced by its only element when it has exactly one (`return_lists=False` in the inner fan-out), then
+the outer list likewise, then `first`'s own last step unwraps a remaining one-element list.
+`C06_chained_first_cases` spells the cases out. -/
+theorem C06_chained_first (cls : Cls) (kvs : List (Str × Val)) (p : Pos)
+    (k1 opx1 op1 vq1 v1 items k2 opx2 op2 vq2 v2 f : Str) (lc : Cls) (rs : List Val) (d : Val)
+    (hp : PlainPos p) (hne : p ≠ []) (hk1 : FieldKey k1) (hop1 : OpSpell opx1 op1) (hlit1 : LitSpell vq1 v1) (hv1 : PlainLit v1)
+    (hitems : PlainKey items) (hk2 : FieldKey k2) (hop2 : OpSpell opx2 op2) (hlit2 : LitSpell vq2 v2) (hv2 : PlainLit v2)
+    (hf : PlainKey f) (hget : getAt (.dict cls kvs) p = some (.list lc rs)) (hrs : ∀ r ∈ rs, isDict r = true)
+    (hg : ComparableK k1 v1 rs) (hin : InnerLists items k2 v2 rs) :
+    ∃ n, ∀ fuel ≥ n,
+      let xp := slash ++ renderPos p ++ bracket (k1 ++ opx1 ++ vq1) ++ slash ++ items ++ bracket (k2 ++ opx2 ++ vq2) ++ slash ++ f
+      let sels := chainedLists k1 items (condTest op1 (.str v1)) k2 f (condTest op2 (.str v2)) rs
+      first fuel (.dict cls kvs) xp d = (.dict cls kvs, .ok (firstOf (sels.map single) d)) := by
+  obtain ⟨n, h⟩ := C06_chained_hidden cls kvs p k1 opx1 op1 vq1 v1 items k2 opx2 op2 vq2 v2 f lc rs d hp hne hk1 hop1 hlit1 hv1
+    hitems hk2 hop2 hlit2 hv2 hf hget hrs hg hin.recs
+  refine ⟨n, fun fuel hfuel => ?_⟩
+  have := (h fuel hfuel).2.2
+  rw [chainedLists_false _ _ _ _ _ v2 _ _ hin] at this
+  exact this
+
+/-- what `first` makes of the per-parent selections `sels` (all non-empty): nothing selected → the default
+(unwrapped if it is a one-element list); exactly one parent selecting exactly one record → that value (unwrapped
+once more if it is itself a one-element list: three levels in all); exactly one parent selecting several → the list
+of them (ONE level: the parent level is gone); several parents → the list of per-parent results, a parent with one
+selected record represented by the bare value, the others by their lists -/
+theorem C06_chained_first_cases (sels : List (List Val)) (d x : Val) (xs : List Val) :
+    (sels = [] → firstOf (sels.map single) d = unwrap1 d) ∧
+    (sels = [[x]] → firstOf (sels.map single) d = unwrap1 x) ∧
+    (sels = [xs] → xs.length ≥ 2 → firstOf (sels.map single) d = .list .n0 xs) ∧
+    (sels.length ≥ 2 → firstOf (sels.map single) d = .list .n0 (sels.map single)) := by
+  refine ⟨?_, ?_, ?_, ?_⟩
+  · rintro rfl; rfl
+  · rintro rfl; rfl
+  · rintro rfl hlen
+    match xs, hlen with
+    | a :: b :: r, _ => rfl
+  · intro hlen
+    match sels, hlen with
+    | a :: b :: r, _ => rfl
 
 /-! ## non-vacuity -/
 
